@@ -6,7 +6,7 @@
 (* mechanism transcription against the same clauses.                                   *)
 EXTENDS Integers, Sequences, FiniteSets, TLC
 
-Probes == {"p1", "p2", "p3", "p4", "p5", "p6", "p7", "p8", "p9", "p10", "p11", "p12", "p13", "p14", "p15", "p16", "q2", "bad", "bad2", "bad3", "bad4"}
+Probes == {"p1", "p2", "p3", "p4", "p5", "p6", "p7", "p8", "p9", "p10", "p11", "p12", "p13", "p14", "p15", "p16", "p17", "q2", "bad", "bad2", "bad3", "bad4"}
 \* bad = 'f > zzz' (no such variable), bad2 = 'g > #nope' (no such meta-variable): refused with a selector error;
 \* bad3 = 'f > lam > a' where lam is a lambda: refused with a type error AFTER f, the first function of the path, was tooled
 \* bad4 = 'lam > g > a': refused with a type error BEFORE g, the later function of the path, is reached (nothing of g's was pushed)
@@ -23,6 +23,7 @@ Fns == {"f", "g", "h1", "h2"}
 Touches(p) == CASE p = "q2" -> {} [] p \in {"p1", "p2", "p5", "p7", "p8", "p9", "p10", "p11", "p14", "p15", "bad", "bad3"} -> {"f"}
                 [] p \in {"p3", "p6", "p16"} -> {"f", "g"}
                 [] p = "bad4" -> {}
+                [] p = "p17" -> {"g"}                 \* 'g > g > a': the same function at two levels of the path (never matches here)
                 [] p \in {"p4", "bad2"} -> {"g"}
                 [] p = "p12" -> {"h1"} [] p = "p13" -> {"h2"}
 
